@@ -58,9 +58,11 @@ func init() {
 		Exhaustive:  func(tier string) bool { return true },
 		Flavours: func(tier string) []string {
 			if tier == "thorough" {
-				return []string{"release", "release#orders", "go126", "386"}
+				return []string{"release", "release#orders", "debug", "go126", "386"}
 			}
-			return []string{"release", "release#orders"}
+			// debug: the module's own contract checks (openacid/must) run inside PathToIndex / IndexToPath with that tag;
+			// heights up to 20 completely, every height through the related-queries family
+			return []string{"release", "release#orders", "debug"}
 		},
 		Required: []string{"h=0", "h<=4/table-only", "h=5", "h=30", "index=0", "index=last", "index>=2^30", "history/same-query-repeated", "history/A-B-A-related-indexes"},
 		Merge: func(tier string, rs map[string]*mon.Result) []mon.Violation {
